@@ -42,6 +42,84 @@ CLAIMED = {
         'template features are C06\'s, metadata C10\'s. PrimFloat is used only in the comparator (one division / one product per '
         'spike), never in a theorem.' + NOTE_COMMON,
         TECH, 'DESIGN.md §8 C04'),
+    'C03': (
+        'Theorems (coq/theories/C03/Props.v, 7, all closed under the global context, polymorphic in the sample type): '
+        'C03_extract (direct extraction = the zero-padded window for every recording, every spike inside it incl. 0, the last '
+        'sample, closer than n//2 to either end and recordings shorter than the window, every window length >= 1, every channel '
+        'list with -1 entries), C03_extract_waveforms, C03_window_meaning (the window is the statement cell by cell, no default '
+        'value involved), C03_iter (over ANY chunking whose non-empty intervals tile the recording every spike of a sorted vector '
+        'is extracted exactly once, in order), C03_iter_flat and C03_iter_mtscomp (instantiated with C16\'s chunk-bound theorems '
+        'for flat/array readers of any files/chunk length and for the look-behind batches of the compressed reader), C03_export '
+        '(the file is written, its payload dtype = the declared dtype for every kind of unit factor, computed from a promotion '
+        'table, it loads with shape (n_spikes, n, nc) and holds window x factor in spike order). Correspondence: exhaustive small '
+        'scope (length x window x all sorted spike vectors of <= 2 spikes x channel lists; exports over all splits into <= 2 files '
+        'x every chunk length) + random boundary-biased cases, sample dtypes int16/float32/float64, spike dtypes '
+        'int32/int64/uint32/uint64/python int, ndarray / Array / Flat / .cbin readers, int and float factors, subset-store '
+        'look-ups in shuffled order (clause 24) and TemplateModel.get_waveforms (clause 25) judged against the same window.',
+        'The subset-store look-up and the TemplateModel route are judged by the comparator (spec_b) but have no separate theorem '
+        'yet. Model follows the code after fix commits 5c7cd68, 31042ba, d1272de, 7bdfb3a. Trusted: .npy header / tobytes byte '
+        'layout, np.memmap, NumPy dtype promotion (tabulated, cross-checked on every export case), mtscomp, multi-file readers '
+        'returning slices of the concatenation (C01).' + NOTE_COMMON,
+        TECH, 'DESIGN.md §8 C03'),
+    'C07': (
+        'Theorems (coq/theories/C07/Props.v, 6, all closed under the global context, over Z): C07_groups (keys = exactly the ids '
+        'present, strictly increasing; each group = the members of its key in input order, with or without a supplied spike-id '
+        'vector), C07_partition (concatenated groups are a permutation of all spike ids, pairwise disjoint), C07_groups_positions, '
+        'C07_groups_short_ids (a short spike-id vector is an error: the guard is exact), C07_in_clusters (selection = the sorted '
+        'union of the requested groups, and that union is unique; unsorted / duplicated / absent requests), C07_cluster_spikes '
+        '(TemplateModel.get_cluster_spikes / get_template_spikes = the group). The helpers _unique, _index_of, '
+        '_flatten_per_cluster, grouped_mean and get_template_counts are modelled and judged on every case by the comparator '
+        'clauses 24-28 (set-theoretic definitions as boolean specs) but their theorems are not yet in Props.v. Correspondence: '
+        'EVERY assignment vector of length <= 6 (quick) / <= 8 (thorough) over the gapped alphabet {0,2,3,7}, with and without '
+        'spike ids, every requested subset of {0,1,2,3,7,9}, every permutation of every subset as unsorted lookup, each under '
+        'int32/int64/uint16/uint32; random long vectors.',
+        'dtype wrap-around is not modelled (the only subtraction in the code is np.diff of sorted neighbours, exercised under the '
+        'unsigned dtypes). The one float division of grouped_mean is reproduced with PrimFloat in the comparator only.' + NOTE_COMMON,
+        TECH, 'DESIGN.md §8 C07'),
+    'C17': (
+        'Theorems (coq/theories/C17/Props.v, 10, all closed under the global context): C17_kept (kept chunks = grid intervals '
+        'number 0, s, 2s, ... with s = max 1 ceil(n_chunks/k), all of them, never more than k), C17_kept_zero_raises, C17_parity '
+        '(parity of searchsorted-right in the flattened kept bounds <-> t in some kept [a, b), equal neighbours allowed), '
+        'C17_in_chunks, C17_select (the whole __call__ statement for EVERY np.random.choice oracle returning m distinct members: '
+        'result strictly increasing, only eligible spikes of requested clusters / kept chunks / subset, per cluster all eligible '
+        'or exactly the count), C17_route (the same through TemplateModel.save_spikes_subset_waveforms), C17_eligible_meaning, '
+        'C17_unknown (unknown clusters and the empty request contribute nothing), C17_checker_sound (the boolean checkers run on '
+        'phylib\'s outputs imply the statements), C17_oracle_satisfiable. Correspondence: exhaustive over grids x n_chunks_kept x '
+        'spike patterns on / inside / outside the bounds x cluster vectors x counts {None,0,1,2,10} x request lists x chunk '
+        'restriction x subset; sub-sampling calls repeated under 5 NumPy seeds and judged relationally; random stream.',
+        'np.random.choice is an oracle (Section variable with the hypothesis "m distinct members"); _spikes_per_cluster is C07\'s. '
+        'The float ceil of n_chunks / n_chunks_kept is exact below 2^52 (assumed).' + NOTE_COMMON,
+        TECH, 'DESIGN.md §8 C17'),
+    'C19': (
+        'Theorems (coq/theories/C19/Props.v, 8, all closed under the global context): C19_dispatch (refinement: for every '
+        'argument/result type, callback behaviour and history of connect / unconnect by function, sender or owner / reset / '
+        'set_silent / silent() enter, leave / emit inside the reading, what emit does equals spec_emit, which is defined on the '
+        'HISTORY alone: registered-now, event and sender filter, non-last before last in registration order, arguments unchanged, '
+        'results in call order, single = first result after one call, nothing while silenced), C19_registered_meaning, '
+        'C19_called_exactly, C19_last_after_others, C19_dispatch_needs_reading (set_silent(False) inside a silent() block is '
+        'outside the reading, with witness), C19_progress (completion announced during o iff o is a value update reaching the '
+        'maximum and every earlier announcement is followed by an operation setting the value below the maximum or raising the '
+        'maximum — history-defined), C19_progress_unique (the statement determines the trace), C19_progress_values. '
+        'Correspondence: EVERY well-bracketed emitter history up to the tier length over a 12-operation alphabet and every '
+        'reporter history over {increment, value, maximum, set_complete, reset}; random longer histories over a wide alphabet; '
+        'two configurations (fresh emitter / the global emitter with decorator connects).',
+        'Model = phylib/utils/event.py after fix commits bab0f92 and 2a11cae (on the unrepaired code both statements fail: nested '
+        'silent(), reset after completion). Callbacks do not raise or re-enter the emitter (assumed).' + NOTE_COMMON,
+        TECH, 'DESIGN.md §8 C19'),
+    'C20': (
+        'Theorems (coq/theories/C20/Props.v, 13, all closed under the global context, each for EVERY world — data-URL script of any '
+        'length, checksum answers that may change between requests, any prior file — and EVERY digest function): C20_sound, '
+        'C20_sound_const, C20_sound_good_body (returned normally + checksum available => the file has the published MD5 / is the '
+        'good body), C20_skip (zero data GETs exactly when a valid file exists), C20_one_retry (never more than two data GETs; two '
+        'iff the first 200 body failed verification), C20_raises, C20_persistent_raises, C20_file_after (an HTTP error never '
+        'damages the file), C20_requests (every body written was verified), C20_model_meets_spec, C20_checker_iff, '
+        'C20_save_stream (any chunking, empty chunks included), C20_md5_blocks (any block size, any hash whose update is a monoid '
+        'action). Correspondence: fault enumeration — all 351 (quick) / 1080 (thorough) scripted worlds against the real '
+        'download_file over real HTTP on 127.0.0.1 with request logging, several server configurations each, plus varying '
+        'checksum scripts and a random stream.',
+        'Partial: real networks, partial transfers and time-outs are not modelled; the byte-level contract (what is on disk when the '
+        'call returns, which requests were made) is. The checksum file is read in md5sum format (digest then space or EOF).' + NOTE_COMMON,
+        TECH, 'DESIGN.md §8 C20'),
 }
 
 NOT_YET = 'not claimed yet: model/theorems/correspondence for this property are still being built (DESIGN.md §10); it is applicable'
